@@ -46,6 +46,7 @@ def run(c):
     r5(c)
     r6(c)
     r7(c)
+    r8(c)
 
 
 def r1(c, ops):
@@ -494,10 +495,37 @@ def r6(c):
             c.holds("C03.R6", repo.loc(m, fn), f"{name}/no-deletion")
 
 
-def r7(c):
+def loop_reset_accumulators(fn):
+    """containers (re)initialised in the body of a loop, filled there, and read only after that loop: whatever the earlier iterations collected is thrown away"""
+    out = []
+    for lp in [n for n in ast.walk(fn) if isinstance(n, (ast.For, ast.While))]:
+        for st in lp.body:
+            if isinstance(st, ast.Assign) and len(st.targets) == 1 and isinstance(st.targets[0], ast.Name) and \
+                    ((isinstance(st.value, (ast.List, ast.Dict, ast.Set)) and not getattr(st.value, "elts", getattr(st.value, "keys", []))) or
+                     (isinstance(st.value, ast.Call) and call_name(st.value) in ("list", "dict", "set", "odict") and not st.value.args)):
+                x = st.targets[0].id
+                filled = any(isinstance(c_, ast.Call) and isinstance(c_.func, ast.Attribute) and c_.func.attr in ("append", "extend", "add", "update") and norm(c_.func.value) == x
+                             for b in lp.body for c_ in ast.walk(b))
+                read_inside = any(isinstance(n, ast.Name) and n.id == x and isinstance(n.ctx, ast.Load) and not (isinstance(getattr(n, "_parent", None), ast.Attribute)
+                                  and getattr(n._parent, "attr", "") in ("append", "extend", "add", "update")) for b in lp.body for n in ast.walk(b))
+                # read after the loop, in the block that contains it
+                par = getattr(lp, "_parent", None)
+                after = []
+                for field in ("body", "orelse", "finalbody"):
+                    blk = getattr(par, field, None)
+                    if isinstance(blk, list) and lp in blk:
+                        after = blk[blk.index(lp) + 1:]
+                read_after = any(isinstance(n, ast.Name) and n.id == x and isinstance(n.ctx, ast.Load) for b in after for n in ast.walk(b))
+                init_before = any(isinstance(n, ast.Name) and n.id == x and isinstance(n.ctx, ast.Store) and getattr(n, "lineno", 0) < lp.lineno for n in ast.walk(fn))
+                if filled and read_after and not read_inside and not init_before:
+                    out.append((st, lp, x))
+    return out
+
+
+def r7(c, rid="C03.R7"):
     """the known deletion in rewrite_diff (C03.R6) is harmless only while its 'nothing changed anywhere' test looks at the whole sub-tree"""
     repo = c.repo
-    c.rule("C03.R7", "rewrite_diff: the test that decides to clear the diff of a %rewrite block (and the loop relabelling AFFECTED to MOVED) quantify over every entry of the "
+    c.rule(rid, "rewrite_diff: the test that decides to clear the diff of a %rewrite block (and the loop relabelling AFFECTED to MOVED) quantify over every entry of the "
                      "sub-tree — the iterable is produced by a walker that descends into .children — and the test compares each visited entry's op with Op.AFFECTED; "
                      "a test over the first level only treats a change below an unchanged row as 'no change' and drops it from the diff")
     m = repo.module(COMMON)
@@ -509,9 +537,14 @@ def r7(c):
     clears = [n for n in walk_no_nested(fn) if isinstance(n, ast.Call) and isinstance(n.func, ast.Attribute) and n.func.attr == "clear"
               and base and any(x is base[0] for x in pv.origin_calls(n.func.value, through_calls=False))]
     if not clears:
-        c.holds("C03.R7", repo.loc(m, fn), "rewrite_diff/clear-test", "the diff is never cleared", trivial=True)
+        c.holds(rid, repo.loc(m, fn), "rewrite_diff/clear-test", "the diff is never cleared", trivial=True)
         return
     nested = {n.name: n for n in ast.walk(fn) if isinstance(n, ast.FunctionDef) and n is not fn}
+    for w in nested.values():
+        for st_, lp_, x_ in loop_reset_accumulators(w):
+            c.violated(rid, repo.loc(m, st_), f"rewrite_diff/{w.name}/walk-complete", f"`{x_}` is emptied on every pass of the loop at line {lp_.lineno} and only read after it: the walker "
+                       "forgets the children collected for all but the last list of a level, so entries deeper in the sub-tree are never visited (a change there is neither seen by the "
+                       "'nothing changed' test nor relabelled)", key_text=f"walker-reset:{x_}")
 
     def walker_of(it):
         """-> (function def or None, shallow?)"""
@@ -542,11 +575,54 @@ def r7(c):
         if shallow is None:
             raise AnchorError(f"rewrite_diff: iterable `{norm(g.iter)[:50]}` of the clear test not recognised")
         mentions_affected = any(op_const(x) == "AFFECTED" for x in ast.walk(q.args[0].elt)) and any(isinstance(x, ast.Attribute) and x.attr == "op" for x in ast.walk(q.args[0].elt))
-        c.check("C03.R7", (not shallow) and mentions_affected, repo.loc(m, q), "rewrite_diff/clear-test",
+        c.check(rid, (not shallow) and mentions_affected, repo.loc(m, q), "rewrite_diff/clear-test",
                 f"`{norm(q)[:80]}` looks at {'the first level of the diff only' if shallow else 'something other than op == Op.AFFECTED'}: a %rewrite block whose only change lies below an unchanged row "
                 "(e.g. a statement inside an if of a route-policy) is cleared from the diff — the change is never patched", key_text="clear-test-depth")
     loops = [n for n in walk_no_nested(fn) if isinstance(n, ast.For) and any(isinstance(x, ast.Call) and isinstance(x.func, ast.Attribute) and x.func.attr == "_replace" for x in ast.walk(n))]
     for lp in loops:
         f, shallow = walker_of(lp.iter)
-        c.check("C03.R7", shallow is False, repo.loc(m, lp), "rewrite_diff/relabel-walk", "the AFFECTED→MOVED relabelling does not walk the whole sub-tree: nested unchanged rows of a rewritten block are not re-created",
+        c.check(rid, shallow is False, repo.loc(m, lp), "rewrite_diff/relabel-walk", "the AFFECTED→MOVED relabelling does not walk the whole sub-tree: nested unchanged rows of a rewritten block are not re-created",
                 key_text="relabel-depth")
+
+
+def r8(c):
+    repo = c.repo
+    c.rule("C03.R8", "index-based move detection needs both sides in their own order: call_diff_logic fills the old part of every diff-logic group with old[row] while iterating "
+                     "`old` itself and the new part with new[row] while iterating `new` itself (a group filled in the other side's order makes a pure reordering invisible: it is "
+                     "reported AFFECTED, then stripped); CommonFormatter.diff renders the diff it is given, entries in the given order")
+    m = repo.module(COMMON)
+    fn = repo.func(COMMON, "call_diff_logic")
+    c.count("functions", 2)
+    gm = GuardMap(fn)
+    pv = Provenance(fn)
+    ps = [a.arg for a in fn.args.args]
+    if len(ps) < 3:
+        raise AnchorError("call_diff_logic: (diff_pre, old, new) parameters not found")
+    OLD, NEW = ps[1], ps[2]
+    found = {}
+    for n in walk_no_nested(fn):
+        if isinstance(n, ast.Assign) and isinstance(n.targets[0], ast.Subscript):
+            v = norm(pv.resolve_alias(n.value))
+            for side, P in (("old", OLD), ("new", NEW)):
+                if v.startswith(f"{P}[") and gm.in_loop(n):
+                    lp = [l for l in gm.in_loop(n) if isinstance(l, ast.For)]
+                    if lp:
+                        found.setdefault(side, []).append((n, pv.iteration_bases(lp[-1].iter)))
+    for side, P in (("old", OLD), ("new", NEW)):
+        if side not in found:
+            # single-logic fast paths etc. are fine as long as the grouping stores exist somewhere
+            raise AnchorError(f"call_diff_logic: the store of {P}[row] into its diff-logic group not found")
+        for n, (bases, filters) in found[side]:
+            ok = bases == {P} and not filters
+            c.check("C03.R8", ok, repo.loc(m, n), f"call_diff_logic/{side}-group-order", f"`{norm(n)[:60]}` runs in a loop over {sorted(bases)}: the {side} part of a group must be filled in "
+                    f"the order of `{P}` itself — base_diff compares row positions of the two parts, so a part filled in another order hides (or invents) moves", key_text=f"{side}-order")
+    tm = repo.module(TAB)
+    df = repo.func(TAB, "CommonFormatter.diff")
+    pvd = Provenance(df)
+    calls = [x for x in calls_in(df) if isinstance(x.func, ast.Attribute) and x.func.attr in ("diff_generator", "_diff_lines") and x.args]
+    if not calls:
+        raise AnchorError("CommonFormatter.diff: rendering call not found")
+    a0 = pvd.resolve_alias(calls[0].args[0])
+    ok = isinstance(a0, ast.Name) and a0.id == df.args.args[1].arg
+    c.check("C03.R8", ok, repo.loc(tm, calls[0]), "CommonFormatter.diff/as-given", f"the text is rendered from `{norm(a0)[:50]}`, not from the diff as given: re-sorted entries read back as another "
+            "ordered tree (an added row of an ordered block is shown after the rows it precedes)", key_text="diff-as-given")
